@@ -411,6 +411,20 @@ def s5b(ctx, rep):
                                 "skipped levels' raw times - resumed results are stamped too late and arrive out of order")
     if n < 1:
         raise AnchorError("_run_job_and_collect_results: monotonicity repair `results[i] = max(results[i], results[i - 1] + eps)` not found")
+    # the stages in order: a resumed run's times are rebased (the offset of the skipped levels taken off) BEFORE the repair makes them
+    # increase by at least eps - the repair works on the times that are delivered
+    from .common import out_of_order
+    is_rebase = lambda nd, cfg_: nd.kind == "stmt" and ((isinstance(nd.ast, ast.AugAssign) and isinstance(nd.ast.op, ast.Sub) and "elapsed_time_attr" in U(nd.ast.target)) or
+                                                        (isinstance(nd.ast, ast.Assign) and isinstance(nd.ast.value, ast.BinOp) and isinstance(nd.ast.value.op, ast.Sub)
+                                                         and "elapsed_time_attr" in U(nd.ast.targets[0]) and U(nd.ast.value.left) == U(nd.ast.targets[0])))
+    is_repair = lambda nd, cfg_: nd.kind == "stmt" and isinstance(nd.ast, ast.Assign) and isinstance(nd.ast.value, ast.Call) and fn_name(nd.ast.value) == "max" \
+        and isinstance(nd.ast.targets[0], ast.Subscript) and any(isinstance(y, ast.BinOp) and isinstance(y.op, ast.Add) for y in ast.walk(nd.ast.value))
+    bad, firsts, thens = out_of_order(ctx, g, is_rebase, is_repair, within_iteration=False)
+    if firsts and thens:
+        cg_ = cfg_of(g)
+        rep.put(not bad, "S5", "must_precede", "_BlackboxSimulatorBackend: elapsed times are rebased to the resume point before the monotonicity repair", g,
+                cg_.nodes[bad[0][0]].ast if bad else None, "", "the repair runs on the table's cumulative times and the offset is taken off afterwards: a resumed "
+                "run whose first kept level has a smaller cumulative time than the paused one gets a negative elapsed time - its results are stamped before its own start")
 
 
 def _ancestors(x):
